@@ -91,6 +91,18 @@ def run(ctx):
         if it == "semantic":
             pred, ref = pred.astype("int16"), ref.astype("int16")
         cases.append((it, rng.choice(subsets), pred, ref))
+    # label values that are multiples of 256 / at dtype limits, and relabelling past 255 (foreground must not depend on label values)
+    for _ in range(ctx.scale(40, 300)):
+        it = rng.choice(["matched", "unmatched"])
+        shape = (4, 7)
+        dt = rng.choice(["uint16", "uint32", "uint8"])
+        pool = [256, 512, 1024, 768, 255, 257, 65535] if dt != "uint8" else [255, 254, 128, 7]
+        ref = np.zeros(shape, dt); pred = np.zeros(shape, dt)
+        ls = rng.sample(pool, 2)
+        ref[0:2, 0:3] = ls[0]; ref[2:4, 4:7] = ls[1]
+        pls = ls if it == "matched" else rng.sample([3, 9, 11, 250], 2)
+        pred[0:2, 0:2] = pls[0]; pred[3:4, 0:2] = pls[1]          # second prediction is unmatched -> fresh label max(ref)+1
+        cases.append((it, rng.choice(subsets), pred, ref))
     model_in, model_meta = [], []
     for it, gm, pred, ref in cases:
         rot = rng.randrange(5)
